@@ -1,5 +1,7 @@
 import Driver.Common
 import JaqVerif.C12.Coll
+import JaqVerif.C12.Defs
+import JaqVerif.C08.Model
 
 namespace Jaq.Driver.C12
 open Jaq.Coll
@@ -77,17 +79,19 @@ partial def parseStream (toks : List String) (acc : List ValR) : Option (List Va
     | none => none
   | _ => none
 
-/-- run a keyed native of the generic model on an array whose elements carry their index -/
+/-- run a keyed native of the generic model on an array whose elements carry their index;
+the comparison and equality are C08's models of `impl Ord` / `impl PartialEq for Val` (the ones
+the `sort_by_val_*` theorems of Props/C12 are about) -/
 def keyed (op : String) (a : List Val) (tab : Array (Except Err (List Val))) : ValR :=
   let ix : List (Nat × Val) := (List.range a.length).zip a
   let kf : Nat × Val → Except Err (List Val) := fun p => tab.getD p.1 (.ok [])
   let dn : Nat × Val := (0, .null)
   match op with
-  | "sort_by" => (sortByKey Val.cmp kf ix).map fun r => .arr (r.map (·.2))
-  | "group_by" => (groupByKey Val.cmp Val.eq kf ix).map fun gs => .arr (gs.map fun g => .arr (g.map (·.2)))
-  | "unique_by" => (uniqueByKey dn Val.cmp Val.eq kf ix).map fun r => .arr (r.map (·.2))
-  | "min_by" => (minByKey dn Val.cmp kf ix).map (·.2)
-  | "max_by" => (maxByKey dn Val.cmp kf ix).map (·.2)
+  | "sort_by" => (sortByKey C08.cmp kf ix).map fun r => .arr (r.map (·.2))
+  | "group_by" => (groupByKey C08.cmp C08.eq kf ix).map fun gs => .arr (gs.map fun g => .arr (g.map (·.2)))
+  | "unique_by" => (uniqueByKey dn C08.cmp C08.eq kf ix).map fun r => .arr (r.map (·.2))
+  | "min_by" => (minByKey dn C08.cmp kf ix).map (·.2)
+  | "max_by" => (maxByKey dn C08.cmp kf ix).map (·.2)
   | _ => .error (.str "bad-op")
 
 def intOfVal : Val → Option Int
@@ -113,7 +117,7 @@ def modeOf : String → Option RMode
 
 def showB (b : Bool) : String := showVal (.bool b)
 
-def handlers : List (String × Handler) := [
+def handlers1 : List (String × Handler) := [
   ("c12.keyed", fun toks =>
     match toks with
     | op :: rest =>
@@ -219,5 +223,162 @@ def handlers : List (String × Handler) := [
   ("c12.ltrimstr", bin2 fun a b => showR (ltrimstr a b)),
   ("c12.rtrimstr", bin2 fun a b => showR (rtrimstr a b))
 ]
+
+/-! ### round 2: filters that are jq definitions -/
+
+def unmodelledErr : Err := .str "@@unmodelled"
+
+def isUnmodelled : ValR → Bool
+  | .error (.str "@@unmodelled") => true
+  | _ => false
+
+/-- one stream `S<m> v1 … vm (. | X v)` -/
+def parseOuts (toks : List String) : Option (List ValR × List String) :=
+  match toks with
+  | t :: rest =>
+    match t.toList with
+    | 'S' :: ds =>
+      match natOfDecChars ds with
+      | none => none
+      | some m =>
+        match Val.parseVXs rest m with
+        | some (vs, "." :: rest') => some (vs.map .ok, rest')
+        | some (vs, "X" :: rest') =>
+          match val1 rest' with
+          | some (e, rest'') => some (vs.map .ok ++ [.error (.val e)], rest'')
+          | none => none
+        | _ => none
+    | _ => none
+  | [] => none
+
+partial def parseRows (n : Nat) (toks : List String) (acc : Array (String × List ValR)) :
+    Option (Array (String × List ValR) × List String) :=
+  if n == 0 then some (acc, toks)
+  else
+    match val1 toks with
+    | some (x, rest) =>
+      match parseOuts rest with
+      | some (outs, rest') => parseRows (n - 1) rest' (acc.push (x.toVX, outs))
+      | none => none
+    | none => none
+
+/-- function table `F<n> (input stream)*`; values outside the table answer `@@unmodelled` -/
+def parseFn (toks : List String) : Option (Flt × List String) :=
+  match toks with
+  | t :: rest =>
+    match t.toList with
+    | 'F' :: ds =>
+      match natOfDecChars ds with
+      | none => none
+      | some n =>
+        match parseRows n rest #[] with
+        | some (rows, rest') =>
+          some ((fun v => let k := v.toVX
+                          match rows.find? (fun r => r.1 == k) with
+                          | some r => r.2
+                          | none => [.error unmodelledErr]), rest')
+        | none => none
+    | _ => none
+  | [] => none
+
+def showItemsU (l : List ValR) : String := if l.any isUnmodelled then "unmodelled" else showItems l
+def showRU (r : ValR) : String := if isUnmodelled r then "unmodelled" else showR r
+
+/-- `<val> <fn table>` -/
+def valFn (f : Val → Flt → String) : Handler := fun toks =>
+  match val1 toks with
+  | some (v, rest) =>
+    match parseFn rest with
+    | some (g, []) => f v g
+    | _ => "bad-request"
+  | none => "bad-request"
+
+def pathsOfVal : Val → Option (List (List Val))
+  | .arr ps => ps.mapM fun | .arr p => some p | _ => none
+  | _ => none
+
+def pairsOfVal : Val → Option (List (List Val × Val))
+  | .arr ps => ps.mapM fun
+    | .arr [.arr p, x] => some (p, x)
+    | _ => none
+  | _ => none
+
+def showOptItems : Option (List ValR) → String
+  | some l => showItems l
+  | none => "unmodelled"
+
+def handlers2 : List (String × Handler) := [
+  ("c12.map", valFn fun v g => showRU (mapF g v)),
+  ("c12.map_values", valFn fun v g => showRU (mapValues g v)),
+  ("c12.walk", valFn fun v g => showItemsU (walk g v)),
+  ("c12.all", valFn fun v g => showRU (allF g v)),
+  ("c12.any", valFn fun v g => showRU (anyF g v)),
+  ("c12.with_entries", valFn fun v g => showRU (withEntries g v)),
+  ("c12.paths", valFn fun v g => showItemsU (pathsP g v)),
+  ("c12.add", un1 fun a => showR (add0 a)),
+  ("c12.all0", un1 fun a => showR (all0 a)),
+  ("c12.any0", un1 fun a => showR (any0 a)),
+  ("c12.sel", fun toks =>
+    match toks with
+    | w :: rest => withVals 1 rest fun vs =>
+      match vs with
+      | [a] =>
+        let r : Option (List Val) :=
+          match w with
+          | "values" => some (selValues a)
+          | "nulls" => some (selNulls a)
+          | "booleans" => some (sel isboolean a)
+          | "numbers" => some (sel isnumber a)
+          | "strings" => some (sel isstring a)
+          | "arrays" => some (sel isarray a)
+          | "objects" => some (sel isobject a)
+          | "iterables" => some (selIterables a)
+          | "scalars" => some (selScalars a)
+          | _ => none
+        match r with
+        | some l => showItems (l.map .ok)
+        | none => "bad-request"
+      | _ => "bad-request"
+    | _ => "bad-request"),
+  ("c12.has", bin2 fun v k => match hasF v k with | some r => showR r | none => "unmodelled"),
+  ("c12.in", bin2 fun k xs => match inF k xs with | some r => showR r | none => "unmodelled"),
+  ("c12.join", fun toks =>
+    match Val.parseVXs toks 2 with
+    | some ([v, s], rest) =>
+      match parseFn rest with
+      | some (g, []) =>
+        -- `tostring` has exactly one output; anything else is outside the model
+        let ts : Val → Val := fun x => match g x with | [.ok y] => y | _ => .null
+        let dom : List Val := match values v with | .ok els => els | .error _ => []
+        if dom.all (fun x => match g x with | [.ok _] => true | _ => false) then showR (join ts s v) else "unmodelled"
+      | _ => "bad-request"
+    | _ => "bad-request"),
+  ("c12.combinations", un1 fun a => showItems (combinations a)),
+  ("c12.combinations_n", fun toks =>
+    match toks with
+    | n :: rest => withVals 1 rest fun vs =>
+      match vs, natOfDecChars n.toList with
+      | [a], some k => showItems (combinationsN k a)
+      | _, _ => "bad-request"
+    | _ => "bad-request"),
+  ("c12.splits", fun toks =>
+    match Val.parseVXs toks 3 with
+    | some ([re, fl, v], "R" :: rest) =>
+      match parseStream rest [] with
+      | some [r] => showItems (splits (fun _ _ _ => r) re fl v)
+      | _ => "bad-request"
+    | _ => "bad-request"),
+  ("c12.delpaths", bin2 fun v ps =>
+    match pathsOfVal ps with
+    | some l => showOptItems (delpaths l v)
+    | none => "unmodelled"),
+  ("c12.del_index", bin2 fun v k => showOptItems (delIndex k v)),
+  ("c12.pick", un1 fun a =>
+    match pairsOfVal a with
+    | some l => showR (pick l)
+    | none => "unmodelled")
+]
+
+def handlers : List (String × Handler) := handlers1 ++ handlers2
 
 end Jaq.Driver.C12
